@@ -11,6 +11,7 @@ package storage
 //@ func readVarint
 //@   only_for C07
 //@   bitprecise
+//@   reveal kvPayload
 //@   ensures [C07.varlong_reads_one_group] err == nil ==> kvGroup(reader, old(brPos(reader)), brPos(reader) - old(brPos(reader))) && brPos(reader) - old(brPos(reader)) <= 10
 //@   ensures [C07.varlong_value_1] err == nil && brPos(reader) - old(brPos(reader)) == 1 && kvPayload(reader, old(brPos(reader)), 1) < 18446744073709551616 ==> mathint(result0) == kvUnzigzag(kvPayload(reader, old(brPos(reader)), 1))
 //@   ensures [C07.varlong_value_2] err == nil && brPos(reader) - old(brPos(reader)) == 2 && kvPayload(reader, old(brPos(reader)), 2) < 18446744073709551616 ==> mathint(result0) == kvUnzigzag(kvPayload(reader, old(brPos(reader)), 2))
